@@ -215,7 +215,7 @@ type Engine struct {
 		ShardShare                                                                             bool
 		MaxDepth                                                                               int
 		Zombies                                                                                int
-		SkippedUnsub                                                                           int
+		SkippedUnsub, ZombieUnsubs                                                             int
 	}
 }
 
@@ -642,12 +642,38 @@ func (e *Engine) doSub(op *Op) {
 
 func (e *Engine) doUnsub(op *Op) {
 	// zombie looseness: the statement does not say whether a fired once handler still counts
-	// before its publish returns, so an Unsubscribe that could hit one is not issued
-	for _, r := range e.model[op.T] {
-		if r.zombie && r.spec.Class == op.Class && r.spec.Ctx == op.Ctx && !r.isReplay(e) {
+	// before its publish returns. An Unsubscribe that addresses one is issued only when the zombie
+	// is the only registration it can address, and then either answer is accepted (nil: it was still
+	// there and is removed now; error: it already counts as gone) — in both cases it is gone
+	// afterwards, and the other once handlers fired by the same publish must still be retired.
+	matches, zi := 0, -1
+	for i, r := range e.model[op.T] {
+		if r.spec.Class == op.Class && r.spec.Ctx == op.Ctx && !r.isReplay(e) {
+			matches++
+			if r.zombie && zi < 0 {
+				zi = i
+			}
+		}
+	}
+	if zi >= 0 {
+		if matches > 1 {
 			e.Stats.SkippedUnsub++
 			return
 		}
+		before := e.drv(op.T).Count(e.Bus)
+		err := e.drv(op.T).Unsubscribe(e.Bus, op.Class, op.Ctx)
+		if after := e.drv(op.T).Count(e.Bus); (err == nil && after != before-1) || (err != nil && after != before) {
+			e.fail("registry:unsubscribe-count-delta", "Unsubscribe (of a once handler that fired in the running publish) returned %v but HandlerCount[%s] went %d -> %d", err, e.drv(op.T).Name(), before, after)
+			return
+		}
+		l := e.model[op.T]
+		nl := make([]*mreg, 0, len(l)-1)
+		nl = append(nl, l[:zi]...)
+		nl = append(nl, l[zi+1:]...)
+		e.model[op.T] = nl
+		e.Stats.ZombieUnsubs++
+		e.mut()
+		return
 	}
 	before := e.drv(op.T).Count(e.Bus)
 	err := e.drv(op.T).Unsubscribe(e.Bus, op.Class, op.Ctx)
